@@ -216,11 +216,14 @@ def expected_imports(m, ns):
             'includes': UNSPEC, '_must_include': sorted(by['data_type'] | by['alias'])}
 
 
-def expect(m):
+def expect(m, doc_order=None):
+    """doc_order: {namespace: [indices of ns.docs in the order their files were given]} when a layout
+    permuted the files that carry the docs of one namespace (docs concatenate in file order)."""
     ex = Expander(m)
     out = OrderedDict()
     for ns in sorted(m.namespaces, key=lambda n: n.name):
-        nd = {'doc': (''.join(doc_of(d) + '\n' for d in ns.docs) if ns.docs else None),
+        docs = [ns.docs[i] for i in (doc_order or {}).get(ns.name, range(len(ns.docs)))]
+        nd = {'doc': (''.join(doc_of(d) + '\n' for d in docs) if docs else None),
               'types': OrderedDict(), 'aliases': OrderedDict(), 'routes': OrderedDict(),
               'annotations': OrderedDict(), 'annotation_types': OrderedDict()}
         for d in ns.defs:
